@@ -46,6 +46,10 @@ FAULTS = [
     ('noinclude', 'include missing_file_61.asm'), ('noinclude', 'include_bytes missing_blob_62.bin'), ('noinclude', 'include'),
     ('expansion', 'bgt x5, x6, {far}'), ('expansion', 'bleu x5, x6, {far}'), ('expansion', 'beqz x5, {far}'), ('expansion', 'li x99, 0x12345678'),
     ('expansion', 'sgtz x5, x77'), ('expansion', 'not q1, x5'),
+    # found by the byte-level fuzzer (section 5 of DESIGN.md, fixes 15-17): a zero alignment, pack formats struct does not know,
+    # and an upper-case shorthand directive (valid after the fix: then merely counted as not refused)
+    ('range32', 'align 0'), ('malformed', 'pack <P, 5'), ('malformed', 'pack YI, 5'), ('malformed', 'pack \u013d, 5'), ('malformed', 'pack <n 5'),
+    ('malformed', 'DW 1 +'), ('nonint', 'DH 1.5'), ('rangedata', 'DD -9223372036854775810'), ('rangedata', 'Dw 0x100000001'),
 ]
 
 
@@ -141,7 +145,13 @@ def repaired(text):
     if head in ('db', 'dh', 'dw', 'dd'):
         return head + ' 1'
     if head == 'pack':
-        return 'pack ' + t.split()[1].rstrip(',') + ' 1'
+        import struct
+        fmt = t.split()[1].rstrip(',')
+        try:
+            struct.calcsize(fmt)
+        except Exception:
+            fmt = '<I'
+        return 'pack ' + fmt + ' 1'
     if head == 'align':
         return 'align 4'
     if head in ('error', 'include', 'include_bytes') or t.endswith(':'):
@@ -336,6 +346,114 @@ def shard(n, s, shrink=False):
     return res
 
 
+# ---------------------------------------------------------------------------------------------------------------------
+# coverage-guided byte-level fuzzing (atheris / libFuzzer in the tooling interpreter); candidates are re-judged here
+
+FUZZ_RUNS = {'quick': 80000, 'thorough': 3000000}
+RESOURCE = ('MemoryError', 'OverflowError', 'RecursionError')   # `align 99999999999999999999`: no output can exist; which error says so is the platform's business
+FUZZ_SEEDS = ['addi x1, x2, 3\n', 'K = 5\nL:\nli t0, %hi(L + K)\nbeq x1 x2 L\n', 'pack <I, 5\nstring "hi"\nbytes 1 2 3\nalign 4\nlw x1, 4(x2)\nc.addi x8, 1\n',
+              "R = x8\nshorts 1 -2\ndw 'a'\nlui a0, %hi(0x20000000)\ncall L\nL:\nret\n", 'dd 1 << 40\nlonglongs 7\nfence iorw, iorw\namoadd.w x1, x2, x3, 1, 0\ncsrrw x1, 0x300, x2\n']
+
+
+def fuzz_interpreter():
+    import shutil
+    import subprocess
+    for cand in (shutil.which('python3-vt'), '/opt/veriftools/pyvenv/bin/python'):
+        if cand and os.path.exists(cand):
+            p = subprocess.run([cand, '-c', 'import atheris'], stdout=subprocess.PIPE, stderr=subprocess.PIPE)
+            if p.returncode == 0:
+                return cand
+    return None
+
+
+def raw_key(a, source, compress):
+    """None when the text is assembled or refused with the assembler's own error naming a line of the text; else (type, function)."""
+    import traceback
+    try:
+        with env.quiet_stdio():
+            a.assemble(source, compress=compress)
+        return None
+    except a.AssemblerError as e:
+        n = getattr(getattr(e, 'line', None), 'number', None)
+        return None if (n is not None and 1 <= n <= (len(source.splitlines()) or 1)) else ('AssemblerError', 'line-out-of-text')
+    except BaseException as e:
+        tb = traceback.extract_tb(e.__traceback__)
+        return (type(e).__name__, tb[-1].name if tb else '?')
+
+
+def minimise_text(a, source, compress, key):
+    lines = source.split('\n')
+    changed = True
+    while changed and len(lines) > 1:
+        changed = False
+        for i in range(len(lines) - 1, -1, -1):
+            cand = lines[:i] + lines[i + 1:]
+            if cand and raw_key(a, '\n'.join(cand), compress) == key:
+                lines, changed = cand, True
+    text = '\n'.join(lines)
+    # then single characters, greedily, a bounded number of sweeps
+    for _ in range(3):
+        i, changed = 0, False
+        while i < len(text) and len(text) > 1:
+            cand = text[:i] + text[i + 1:]
+            if raw_key(a, cand, compress) == key:
+                text, changed = cand, True
+            else:
+                i += 1
+        if not changed:
+            break
+    return text
+
+
+def fuzz_job(interp, seed, runs):
+    import subprocess
+    a = env.load_asm()
+    res = env.Result()
+    here = os.path.dirname(os.path.dirname(os.path.abspath(__file__)))
+    with env.scratch_dir('bbv-c15fz-') as d:
+        corpus = os.path.join(d, 'corpus')
+        os.makedirs(corpus)
+        for i, t in enumerate(FUZZ_SEEDS + [f[1] + '\n' for f in FAULTS if '{' not in f[1] and 'include' not in f[1]][seed % 7::7]):
+            with open(os.path.join(corpus, 's%d' % i), 'wb') as f:
+                f.write(bytes([i & 1]) + t.encode('utf-8'))
+        words = sorted(set(a.INSTRUCTIONS) | set(a.KEYWORDS) | set(a.PSEUDO_INSTRUCTIONS) | {'%hi', '%lo', '%offset', '%position', 'zero', 'sp', 'a0', 's1', 't6', '0x', '0b'})
+        with open(os.path.join(d, 'dict'), 'w') as f:
+            f.write(''.join('"%s"\n' % w for w in words if w.isascii() and '"' not in w and '\\' not in w))
+        out, stats = os.path.join(d, 'findings.jsonl'), os.path.join(d, 'stats.json')
+        e = dict(os.environ, PYTHONPATH=env.REPO, FUZZ_OUT=out, FUZZ_STATS=stats, PYTHONHASHSEED='0', PYTHONDONTWRITEBYTECODE='1')
+        p = subprocess.run([interp, os.path.join(here, 'tools', 'fuzz_text.py'), corpus, '-runs=%d' % runs, '-seed=%d' % (1 + seed % (2 ** 31 - 2)), '-max_len=200',
+                            '-dict=' + os.path.join(d, 'dict'), '-print_final_stats=0', '-verbosity=0'],
+                           cwd=d, env=e, stdout=subprocess.PIPE, stderr=subprocess.PIPE, timeout=7200)
+        if not os.path.exists(stats):
+            raise env.HarnessError('fuzz child produced no statistics: rc=%d %s' % (p.returncode, p.stderr.decode('utf-8', 'replace')[-400:]))
+        with open(stats) as f:
+            st_ = json.load(f)
+        if os.path.realpath(st_['asm_file']) != os.path.realpath(os.path.join(env.REPO, 'bronzebeard', 'asm.py')):
+            raise env.HarnessError('fuzz child imported %s' % st_['asm_file'])
+        res.evaluations = st_['execs']
+        res.nontrivial_count = st_['refused']      # texts that reached the assembler and were refused: each one exercised the error path
+        res.count('fuzz_execs', st_['execs'])
+        res.count('fuzz_texts_assembled', st_['assembled'])
+        res.count('fuzz_texts_refused', st_['refused'])
+        cands = []
+        if os.path.exists(out):
+            with open(out) as f:
+                cands = [json.loads(ln) for ln in f if ln.strip()]
+        for c in cands:
+            key = raw_key(a, c['source'], c['compress'])
+            if key is None:
+                res.count('fuzz_candidate_not_confirmed')    # differs between the two interpreters: not this property's business
+                continue
+            if key[0] in RESOURCE:
+                res.count('fuzz_resource_limit_excluded')
+                continue
+            text = minimise_text(a, c['source'], c['compress'], key)
+            res.fail('fuzz:raw:%s@%s' % key, 'source text %r (compress=%s) ends in %s raised in %s() instead of the assembler\'s own error naming a line of the text' % (
+                text[:300], c['compress'], key[0], key[1]), {'kind': 'text', 'source': text, 'compress': c['compress']})
+        res.sample({'fuzz_seed': seed, 'execs': st_['execs'], 'texts_assembled': st_['assembled'], 'texts_refused': st_['refused'], 'candidates': len(cands)})
+    return res
+
+
 def run(tier):
     chk = env.Check(PROP, tier)
     chk.rule = ('Hypothesis: a valid generated program (optionally cut into include files, depth <= 3) + exactly one planted faulty line '
@@ -346,6 +464,18 @@ def run(tier):
                 'counted (premise false). non-trivial = every refused planted fault; distinct by (fault, tree, mode)' % len(FAULTS))
     per = max(1, N[tier] // env.NPROC)
     chk.merge(env.run_shards(shard, [(per, s, tier == 'thorough') for s in range(env.NPROC)]))   # shrinking file trees is slow: thorough only
+    planted = chk.res.evaluations
+    interp = fuzz_interpreter()
+    if interp is None:
+        chk.extra['fuzz'] = 'skipped: no interpreter with atheris found (python3-vt)'
+    else:
+        chk.merge(env.run_shards(fuzz_job, [(interp, env.derive(chk.seed, PROP, 'fuzz', s), FUZZ_RUNS[tier]) for s in range(8 if tier == 'quick' else env.NPROC)]))
+        chk.extra['fuzz'] = '%d libFuzzer executions in %d processes' % (chk.res.evaluations - planted, 8 if tier == 'quick' else env.NPROC)
+        chk.rule += ('; PLUS coverage-guided byte-level fuzzing (atheris, %d processes x %d runs, dictionary of all mnemonics and keywords, seeds = small valid '
+                     'programs and fault texts): every text (no include lines) is assembled or refused with AssemblerError naming a line inside the text; any other '
+                     'exception is re-run in the repository interpreter, minimised (lines, then characters) and reported; resource-limit errors from absurd '
+                     'alignments are excluded and counted' % (8 if tier == 'quick' else env.NPROC, FUZZ_RUNS[tier]))
+    chk.extra['planted_fault_cases'] = planted
     return chk.finish()
 
 
@@ -353,6 +483,14 @@ def replay(path):
     with open(path) as f:
         body = json.load(f)
     c = body['case']
+    if c.get('kind') == 'text':
+        key = raw_key(env.load_asm(), c['source'], c['compress'])
+        if key is not None and key[0] not in RESOURCE:
+            print('VIOLATION property=%s replay=%s' % (PROP, path))
+            print('  %r ends in %s raised in %s()' % (c['source'][:300], key[0], key[1]))
+            return env.EXIT_VIOLATION
+        print('replay holds: %s' % path)
+        return env.EXIT_OK
     case = {'root': c14._load(c['tree']), 'fault': c['fault'], 'cls': c['cls'], 'compress': c['compress'], 'cli': c['cli'], 'main_rel': c['main_rel']}
     try:
         judge(case, env.Result())
